@@ -88,6 +88,9 @@ func c04OnAck(c *cluster, r *pubRec, o *ackObs) {
 		}
 		return
 	}
+	if o.torn {
+		return // (not one instant: nothing about who holds what can be said)
+	}
 	if o.leaderVal != r.value {
 		h.fail("C04/ack", "C04/ack/offset-holds-another-message", "ack for %s (policy %s) carries offset %d, but srv%d holds %q there, not %q", r.cid, r.policy, a.Offset, o.from, trunc([]byte(o.leaderVal), 24), trunc([]byte(r.value), 24))
 		return
@@ -103,6 +106,15 @@ func c04OnAck(c *cluster, r *pubRec, o *ackObs) {
 		// (known finding, see C02: a follower that cannot reach its leader when it starts following truncates
 		// to its own stale high watermark and so drops messages it has already reported as replicated)
 		tag := h.fallbackTag(a.Offset)
+		if tag == "" {
+			// (recorded finding, the C04 face of C02's "leader cut off from the controller": nothing fences a
+			// partition leader against the controller. A leader that was deposed while it was stalled or cut off
+			// still believes it leads when it continues, works off the progress reports that queued up meanwhile -
+			// sent by followers that have since moved to its successor and truncated - and acknowledges.)
+			if leader, _ := c.raftView(o.raftIndex); leader != c.h.nodes[o.from].id {
+				tag = "/acked-by-deposed-leader-on-outdated-metadata"
+			}
+		}
 		have := 0
 		for id, v := range o.holders {
 			if v == r.value || v == "<down>" {
